@@ -9,16 +9,30 @@ FL = {'fixed': 0, 'std': 1, 'small': 2}
 CAT = {'tc': 0, 'tr': 1, 'ntr': 2}
 
 class VecCfg:
-    def __init__(self, fl, n, st, cat, alloc=0, pool=3):
+    def __init__(self, fl, n, st, cat, alloc=0, pool=3, partner=None, pool2=1):
         self.fl, self.n, self.st, self.cat, self.alloc, self.pool = fl, n, st, cat, alloc, pool
+        self.partner = partner      # (fl, n, st, alloc) of the partner vector type for swap2
+        self.pool2 = pool2 if partner else 0
     def name(self):
-        return f'{self.fl}{self.n}_{self.st}_{self.cat}_a{self.alloc}'
+        base = f'{self.fl}{self.n}_{self.st}_{self.cat}_a{self.alloc}'
+        if self.partner:
+            f2, n2, s2, a2 = self.partner
+            base += f'__{f2}{n2}_{s2}_a{a2}'
+        return base
     def defs(self):
-        return [f'CFG_FL={FL[self.fl]}', f'CFG_N={self.n}', f'CFG_ST={ST_C[self.st]}', f'CFG_CAT={CAT[self.cat]}',
-                f'CFG_ALLOC={self.alloc}']
+        d = [f'CFG_FL={FL[self.fl]}', f'CFG_N={self.n}', f'CFG_ST={ST_C[self.st]}', f'CFG_CAT={CAT[self.cat]}',
+             f'CFG_ALLOC={self.alloc}']
+        if self.partner:
+            f2, n2, s2, a2 = self.partner
+            d += [f'CFG2_FL={FL[f2]}', f'CFG2_N={n2}', f'CFG2_ST={ST_C[s2]}', f'CFG2_ALLOC={a2}']
+        return d
     def cfgline(self):
-        return (f'cfg kind=vec fl={self.fl} n={self.n} st={self.st} cat={self.cat} '
-                f'realloc={1 if self.alloc == 0 else 0} pool={self.pool}')
+        l = (f'cfg kind=vec fl={self.fl} n={self.n} st={self.st} cat={self.cat} '
+             f'realloc={1 if self.alloc == 0 else 0} pool={self.pool}')
+        if self.partner:
+            f2, n2, s2, a2 = self.partner
+            l += f' fl2={f2} n2={n2} st2={s2} realloc2={1 if a2 == 0 else 0} pool2={self.pool2}'
+        return l
     def kmax(self):
         return ST_MAX[self.st]
     def maxsize(self):
